@@ -11,7 +11,7 @@ class C01(Spec):
     prop = "C01"
     coq_targets = ["Props/C01.vo"]
     prop_module = "Props.C01"
-    theorems = []
+    theorems = ['C01_roundtrip', 'C01_roundtrip_reference', 'C01_writer_is_reference', 'C01_reader_inverts_reference', 'C01_sequence', 'C01_sequence_any_writer', 'C01_utf8_roundtrip', 'C01_octet_padding', 'C01_refuted_count_16k', 'C01_refuted_bitstring_16k', 'C01_refuted_open_type_16k', 'C01_refuted_size_F10_1']
     builds = [("default", "dev"), ("default", "release")]
     timeout_per_chunk = 600
     xcheck_n = 60
